@@ -1,7 +1,182 @@
-// Package c07 interprets the C07 op language against the real packages (stub).
+// Package c07 interprets the C07 op language against the real packages: system rules through
+// system.LoadRules, load / cpu readings through the system_metric test injection, traffic through
+// api.Entry on the default global slot chain (no other rules are ever loaded, so every block is
+// attributable to the system slot), statistics read from stat.InboundNode().
+//
+// The inbound node is a package-level object created at init with the real clock and cannot be
+// recreated.  Cases carry absolute virtual times (≥ 1.9e12 ms, i.e. after the wall clock); when several
+// cases run in one process the interpreter shifts the times of a case by a multiple of the whole array
+// interval (10 000 ms) so that the case starts more than one array interval after everything recorded
+// before — every old bucket is then deprecated and the slot alignment (t/500 mod 20) is unchanged.
+// A single-case run (every replay) is not shifted at all.  The concurrency gauge is not time based:
+// Reset exits every entry that is still live.
 package c07
 
-import "verifharness/internal/vh"
+import (
+	"fmt"
+	"runtime"
+	"sort"
+	"strconv"
+	"strings"
 
-// New returns the interpreter for C07.
-func New() vh.Interp { return nil }
+	sentinel "github.com/alibaba/sentinel-golang/api"
+	"github.com/alibaba/sentinel-golang/core/base"
+	"github.com/alibaba/sentinel-golang/core/stat"
+	"github.com/alibaba/sentinel-golang/core/system"
+	"github.com/alibaba/sentinel-golang/core/system_metric"
+	"verifharness/internal/vh"
+)
+
+const arrayIntervalMs = 10000
+
+type Interp struct {
+	clk     *vh.Clock
+	live    map[string]*base.SentinelEntry
+	started bool
+	caseNow uint64 // case time (unshifted)
+	shift   uint64
+	last    uint64 // last real virtual time used, 0 = none yet
+}
+
+func New() vh.Interp {
+	runtime.GOMAXPROCS(1)
+	vh.Silence()
+	c := vh.NewClock(1_900_000_000_000)
+	return &Interp{clk: c, live: map[string]*base.SentinelEntry{}}
+}
+
+func (it *Interp) Reset() {
+	ids := make([]string, 0, len(it.live))
+	for id := range it.live {
+		ids = append(ids, id)
+	}
+	sort.Strings(ids)
+	for _, id := range ids {
+		it.live[id].Exit()
+	}
+	it.live = map[string]*base.SentinelEntry{}
+	_ = system.ClearRules()
+	system_metric.SetSystemLoad(system_metric.NotRetrievedLoadValue)
+	system_metric.SetSystemCpuUsage(system_metric.NotRetrievedCpuUsageValue)
+	stat.ResetResourceNodeMap()
+	it.started = false
+	it.caseNow = 0
+	it.shift = 0
+}
+
+func parseRules(toks []string) ([]*system.Rule, bool) {
+	rules := make([]*system.Rule, 0, len(toks))
+	for _, t := range toks {
+		p := strings.Split(t, "/")
+		if len(p) != 3 {
+			return nil, false
+		}
+		m, err1 := strconv.ParseUint(p[0], 10, 32)
+		s, err2 := strconv.ParseInt(p[1], 10, 32)
+		f, ok := vh.ParseFBits(p[2])
+		if err1 != nil || err2 != nil || !ok {
+			return nil, false
+		}
+		rules = append(rules, &system.Rule{MetricType: system.MetricType(m), Strategy: system.AdaptiveStrategy(s), TriggerCount: f})
+	}
+	return rules, true
+}
+
+func (it *Interp) Step(t []string, op string) string {
+	switch t[0] {
+	case "clock":
+		if len(t) != 2 {
+			return "bad-op"
+		}
+		ms, err := strconv.ParseUint(t[1], 10, 64)
+		if err != nil || ms == 0 {
+			return "bad-op"
+		}
+		if !it.started {
+			it.shift = 0
+			if it.last != 0 && ms < it.last+arrayIntervalMs+1 {
+				d := it.last + arrayIntervalMs + 1 - ms
+				it.shift = (d + arrayIntervalMs - 1) / arrayIntervalMs * arrayIntervalMs
+			}
+			it.started = true
+		} else if ms < it.caseNow {
+			return "bad-op"
+		}
+		it.caseNow = ms
+		it.last = ms + it.shift
+		it.clk.SetMs(it.last)
+		return ""
+	case "load":
+		rules, ok := parseRules(t[1:])
+		if !ok {
+			return "bad-op"
+		}
+		_, _ = system.LoadRules(rules)
+		return ""
+	case "sys":
+		if len(t) != 3 {
+			return "bad-op"
+		}
+		f, ok := vh.ParseFBits(t[2])
+		if !ok {
+			return "bad-op"
+		}
+		switch t[1] {
+		case "load":
+			system_metric.SetSystemLoad(f)
+		case "cpu":
+			system_metric.SetSystemCpuUsage(f)
+		default:
+			return "bad-op"
+		}
+		return ""
+	case "entry":
+		if len(t) != 5 || !it.started {
+			return "bad-op"
+		}
+		if _, dup := it.live[t[1]]; dup {
+			return "bad-op"
+		}
+		var tt base.TrafficType
+		switch t[3] {
+		case "in":
+			tt = base.Inbound
+		case "out":
+			tt = base.Outbound
+		default:
+			return "bad-op"
+		}
+		b, err := strconv.ParseUint(t[4], 10, 32)
+		if err != nil {
+			return "bad-op"
+		}
+		e, blk := sentinel.Entry(t[2], sentinel.WithTrafficType(tt), sentinel.WithBatchCount(uint32(b)))
+		if blk != nil {
+			if blk.BlockType() == base.BlockTypeSystemFlow {
+				return "block sys"
+			}
+			return "block other:" + blk.BlockType().String()
+		}
+		it.live[t[1]] = e
+		return "pass"
+	case "exit":
+		if len(t) != 2 || !it.started {
+			return "bad-op"
+		}
+		if e, ok := it.live[t[1]]; ok {
+			e.Exit()
+			delete(it.live, t[1])
+		}
+		return ""
+	case "stat":
+		if len(t) != 1 || !it.started {
+			return "bad-op"
+		}
+		n := stat.InboundNode()
+		return fmt.Sprintf("[p=%d b=%d c=%d conc=%d avgrt=%s minrt=%s qps=%s maxavg=%s]",
+			n.GetSum(base.MetricEventPass), n.GetSum(base.MetricEventBlock), n.GetSum(base.MetricEventComplete),
+			n.CurrentConcurrency(), vh.FBits(n.AvgRT()), vh.FBits(n.MinRT()),
+			vh.FBits(n.GetQPS(base.MetricEventPass)), vh.FBits(n.GetMaxAvg(base.MetricEventComplete)))
+	}
+	return "bad-op"
+}
